@@ -12,17 +12,20 @@ BASE = {}
 def one(meta_path):
     d = os.path.dirname(meta_path)
     world = world_with_patch('/repo', f'{d}/patch.diff')
-    caught, rules = [], {}
+    caught, rules, undecided = [], {}, []
     for pid in ALL_IDS:
         try:
             ck = run_property(pid, world)
         except Exception as exc:  # noqa: BLE001
+            undecided.append(pid)
             continue
         new = sorted({o.key for o in ck.violations()} - BASE[pid])
         if new:
             caught.append(pid)
             rules[pid] = sorted({k.split(' ')[0] for k in new})
-    return meta_path, caught, rules
+        elif ck.incompletes() or ck.floor_failures():
+            undecided.append(pid)
+    return meta_path, caught, rules, undecided
 
 
 if __name__ == '__main__':
@@ -31,10 +34,11 @@ if __name__ == '__main__':
         BASE[pid] = {o.key for o in run_property(pid, clean).violations()}
     metas = sorted(glob.glob('/verif/seeded/*/meta.json'))
     with mp.get_context('fork').Pool(14) as pool:
-        for meta_path, caught, rules in pool.imap(one, metas):
+        for meta_path, caught, rules, undecided in pool.imap(one, metas):
             meta = json.load(open(meta_path))
             old = (meta.get('caught_by'), meta.get('expected_rules'))
             meta['caught_by'], meta['expected_rules'] = caught, rules
+            meta['undecided_by'] = undecided
             json.dump(meta, open(meta_path, 'w'), indent=1)
             own = meta['property'] in caught
             print(os.path.basename(os.path.dirname(meta_path)), 'own' if own else 'NOT-OWN', caught, '(changed)' if old != (caught, rules) else '')
